@@ -100,12 +100,17 @@ pp_semaphore_create_handle (PSemaphore	*sem,
 			else
 				init_val = 0;
 
+			/* In the create mode the old semaphore has just been unlinked,
+			 * so a new one with the requested value must be created */
 			while ((sem->sem_hdl = sem_open (sem->platform_key,
-							 0,
-							 0,
+							 sem->mode == P_SEM_ACCESS_CREATE ? O_CREAT : 0,
+							 0660,
 							 init_val)) == P_SEM_INVALID_HDL &&
 				p_error_get_last_system () == EINTR)
 				;
+
+			if (sem->mode == P_SEM_ACCESS_CREATE && sem->sem_hdl != P_SEM_INVALID_HDL)
+				sem->sem_created = TRUE;
 		}
 	} else
 		sem->sem_created = TRUE;
